@@ -3021,6 +3021,12 @@ func (p *Pkg) semanticEmitModel() (*EmitModel, error) {
 	if len(pend) > 0 {
 		bad(fd, "Vector ends with the constant text %q", flushPrefix())
 	}
+	// "CVSS:3.0" then "/AV:…" is the same text as "CVSS:3.0/" then "AV:…": the
+	// separator belongs to the header the specification states
+	if want := vocab[p.Key].Header; strings.HasSuffix(want, "/") && em.Header+"/" == want && len(em.Entries) > 0 && strings.HasPrefix(em.Entries[0].Prefix, "/") && em.Entries[0].Group < 0 {
+		em.Header += "/"
+		em.Entries[0].Prefix = em.Entries[0].Prefix[1:]
+	}
 	return em, nil
 }
 
